@@ -66,6 +66,7 @@ func (c *Collection) Snapshot(dst io.Writer) error {
 	// Take a snapshot of the current state
 	defer os.Remove(recorder.Name())
 	defer recorder.Close()
+	defer c.recorderClose() // also when writing the state fails
 	verifYield("snapshot:recorder-open", 0)
 	if _, err := c.writeState(s2.NewWriter(dst)); err != nil {
 		return err
